@@ -574,6 +574,8 @@ def run(ctx):
         (COQ / "C03" / "GenConvVenom.v").write_text(text)
     except Exception as e:  # noqa
         gen_err = (gen_err or "") + f" convert export: {type(e).__name__}: {e}"
+    if any(X.CRASHES.get(k) for k in ("legacy", "venom")):
+        ctx.extra["convert_generator_crashes"] = {k: v[:10] for k, v in X.CRASHES.items() if v}
     ctx.extra["family_size"] = {"legacy_templates": len(ltempl), "venom_templates": len(vtempl), "numeric_types": 65,
                                 "legacy_clamps": 65, "venom_clamps": 65,
                                 "legacy_converts": len(lconv), "venom_converts": len(vconv), "word_types": 103}
